@@ -96,7 +96,7 @@ def coerceCharacters (f : Flags) (data : Str) : Str :=
 def coercePubid (f : Flags) (data : Str) : Str :=
   let order := data.filter (fun c => inRanges nonPubidChar c)   -- findall order, duplicates included
   let out := replaceAll order data
-  if f.preventSingleQuotePubid ∧ out.contains [39] then out.replaceChar 39 (escapeChar 39) else out
+  if f.preventSingleQuotePubid ∧ out.elem 39 then out.replaceChar 39 (escapeChar 39) else out
 
 def xmlnsPrefix : Str := [120, 109, 108, 110, 115, 58]     -- "xmlns:"
 def xmlnsNs : Str := lit "http://www.w3.org/2000/xmlns/"
